@@ -241,7 +241,7 @@ func (l *Lexer) shiftRawText() []byte {
 						}
 						l.r.Move(1)
 					}
-					if h := ToHash(parse.ToLower(parse.Copy(l.r.Lexeme()[mark+2:]))); h == l.rawTag { // copy so that ToLower doesn't change the case of the underlying slice
+					if h := ToHash(parse.ToLower(parse.Copy(l.r.Lexeme()[mark+2:]))); h == l.rawTag && (c == ' ' || c == '\t' || c == '\n' || c == '\r' || c == '\f' || c == '/' || c == '>' || c == 0 && l.r.Err() != nil) { // copy so that ToLower doesn't change the case of the underlying slice; the name must end the tag name
 						l.r.Rewind(mark)
 						return l.r.Shift()
 					}
@@ -267,7 +267,7 @@ func (l *Lexer) shiftRawText() []byte {
 								}
 								l.r.Move(1)
 							}
-							if h := ToHash(parse.ToLower(parse.Copy(l.r.Lexeme()[mark:]))); h == Script { // copy so that ToLower doesn't change the case of the underlying slice
+							if h := ToHash(parse.ToLower(parse.Copy(l.r.Lexeme()[mark:]))); h == Script && (c == ' ' || c == '\t' || c == '\n' || c == '\r' || c == '\f' || c == '/' || c == '>' || c == 0 && l.r.Err() != nil) { // copy so that ToLower doesn't change the case of the underlying slice; the name must end the tag name
 								if !isEnd {
 									inScript = true
 								} else {
